@@ -33,6 +33,47 @@ def outcome(rr: S.RunResult, linked: bool) -> Any:
     return {"tables": S.tables_canon(rr.results, sort_rows=linked)}
 
 
+def alias_suite(ctx: Ctx) -> None:
+    """Result tables must be values, not views of data that later steps keep changing: the whole root table is requested and
+    derived groups then extend the (pandas / python-dict) data in place; the modes must still agree."""
+    for _ in range(ctx.budget(14, 200)):
+        uid = F.uniq("")
+        fw = ctx.rng.choice(["pd", "pd", "py"])
+        ncols = ctx.rng.randint(1, 3)
+        nrows = ctx.rng.randint(1, 3)
+        cols = {f"r{uid}_{i}": [ctx.rng.randint(-5, 9) for _ in range(nrows)] for i in range(ncols)}
+        groups = []
+        prev = ctx.rng.choice(list(cols))
+        for k in range(ctx.rng.randint(1, 3)):
+            f = f"d{uid}_{k}"
+            groups.append({"name": f"G{uid}_{k}", "fw": fw, "features": {f: {"parents": [prev], "expr": ["add", ["col", prev], ["const", k + 1]]}}})
+            prev = f
+        spec = {"roots": [{"name": f"R{uid}", "cols": cols, "fw": fw}], "groups": groups, "inplace": True,
+                "request": [{"name": c, "options": {}} for c in cols] + [{"name": prev, "options": {}}]}  # fmt: skip
+        try:
+            sess = S.prepare(spec, S.build_classes(spec))
+        except Exception:
+            continue
+        ref = S.reference(spec)
+        want_tables = None
+        for mode in ("sync", "thread", "mp"):
+            rr = S.run_session(sess, mode)
+            got = outcome(rr, False)
+            case = {"spec": spec, "mode": mode}
+            ctx.case("alias", case, True, mode=mode, fw=fw, outcome=next(iter(got)))
+            if rr.error is None and not rr.timed_out:
+                # every returned table holds exactly requested columns with reference values (nothing leaked in later)
+                for t in rr.results or []:
+                    for c, vals in F.to_columns(t).items():
+                        if c not in ref or vals != ref[c] or c not in {q["name"] for q in spec["request"]}:
+                            ctx.violation("alias", case, f"result table holds column {c} = {vals}, not a requested column with its reference value", vals, ref.get(c))
+            if want_tables is None:
+                want_tables = got
+            elif got != want_tables:
+                fclass = "threading-overlapping-steps-on-shared-cfw" if (mode == "thread" and S.overlap_on_shared_fw(S.export_plan(sess), rr.events)) else None
+                ctx.violation("alias", case, f"result in mode {mode} differs from SYNC", got, want_tables, finding_class=fclass)
+
+
 def run(ctx: Ctx) -> None:
     ctx.extra["rule"] = (
         "each generated request (link-free DAGs with sibling groups / diamonds / option variants on one framework, multi-framework chains, two- and "
@@ -47,9 +88,18 @@ def run(ctx: Ctx) -> None:
     for k in range(n):
         r = ctx.rng.random()
         linked = False
-        if r < 0.55:
+        if r < 0.5:
             spec = S.gen_spec(ctx.rng, max_feats=ctx.rng.choice([4, 7, 10]), frameworks=(ctx.rng.choice(["pa", "pa", "pd", "py"]),), allow_options=ctx.rng.random() < 0.4)
+            spec["inplace"] = ctx.rng.random() < 0.5  # derived groups extend a pandas frame / list of dicts in place
+            if ctx.rng.random() < 0.4:
+                # request every column of the root in frame order too (the whole source table is a result)
+                have = {q["name"] for q in spec["request"]}
+                spec["request"] += [{"name": c, "options": {}} for c in spec["roots"][0]["cols"] if c not in have]
             kind = "single-fw"
+        elif r < 0.6:
+            spec = S.gen_star_spec(ctx.rng)
+            kind = "links-star"
+            linked = True
         elif r < 0.75:
             spec = S.gen_chain_spec(ctx.rng)
             kind = "multi-fw"
@@ -69,6 +119,9 @@ def run(ctx: Ctx) -> None:
         want = outcome(base, linked)
         runs = [("thread", i) for i in range(2 if ctx.quick else 4)] + ([("mp", 0)] if ctx.rng.random() < (0.3 if ctx.quick else 0.6) else [])
         for mode, rep in runs:
+            S.MERGE_DELAY.clear()
+            if linked and mode == "thread":
+                S.MERGE_DELAY["s"] = ctx.rng.choice([0.0, 0.02, 0.04])
             DELAYS.clear()
             for g in groups:
                 DELAYS[g] = ctx.rng.choice([0, 0, 0.003, 0.01, 0.025])
@@ -90,7 +143,7 @@ def run(ctx: Ctx) -> None:
                 fclass = "threading-overlapping-steps-on-shared-cfw"
             elif mode == "mp" and any(st["kind"] == "join" and st["left"] == "PythonDictFramework" for st in exp["steps"]):
                 fclass = "multiprocessing-join-on-python-dict"
-            elif linked and len(spec["sources"]) >= 3:
+            elif linked and len(spec["sources"]) >= 3 and not spec.get("star"):
                 fclass = "three-sources-non-sync"
             elif mode == "mp" and any(st["kind"] == "tfs" and st["from"] != "PyArrowTable" for st in exp["steps"]):
                 fclass = "multiprocessing-transform-step-from-non-arrow-producer"
@@ -110,6 +163,8 @@ def run(ctx: Ctx) -> None:
                     lean_reqs.append({"op": "C06.execTrace", "steps": S.lean_plan(exp)["steps"], "defs": defs, "want": wantu, "obs": obs})
                     metas.append((spec, exp, wantu, rr))
     DELAYS.clear()
+    S.MERGE_DELAY.clear()
+    alias_suite(ctx)
     S.stop_flight_server()
     outs = ctx.lean.batch(lean_reqs)
     for rq, (spec, exp, wantu, rr), o in zip(lean_reqs, metas, outs):
